@@ -5,6 +5,7 @@ go 1.18
 require (
 	github.com/samber/ro v0.0.0
 	github.com/samber/ro/plugins/bytes v0.0.0
+	github.com/samber/ro/plugins/encoding/csv v0.0.0
 	github.com/samber/ro/plugins/sort v0.0.0
 	github.com/samber/ro/plugins/stdio v0.0.0
 	github.com/samber/ro/plugins/strings v0.0.0
@@ -25,3 +26,5 @@ replace github.com/samber/ro/plugins/strings => /repo/plugins/strings
 replace github.com/samber/ro/plugins/sort => /repo/plugins/sort
 
 replace github.com/samber/ro/plugins/stdio => /repo/plugins/stdio
+
+replace github.com/samber/ro/plugins/encoding/csv => /repo/plugins/encoding/csv
